@@ -2,6 +2,7 @@ package server
 
 import (
 	"context"
+	"sort"
 	"strings"
 
 	"go.lsp.dev/protocol"
@@ -15,18 +16,28 @@ func (s *Server) WorkspaceSymbol(ctx context.Context, params *protocol.Workspace
 
 	var symbols []protocol.SymbolInformation
 
+	// sync.Map has no iteration order: visit the documents by URI
+	contents := make(map[protocol.DocumentURI]string)
+	var uris []string
 	s.documents.Range(func(key, value any) bool {
-		uri := key.(protocol.DocumentURI)
-		content := value.(string)
-
-		journal, _ := parser.Parse(content)
-		if journal == nil {
-			return true
+		uri, okURI := key.(protocol.DocumentURI)
+		content, okText := value.(string)
+		if okURI && okText {
+			contents[uri] = content
+			uris = append(uris, string(uri))
 		}
-
-		symbols = append(symbols, extractSymbols(journal, uri, query)...)
 		return true
 	})
+	sort.Strings(uris)
+
+	for _, u := range uris {
+		uri := protocol.DocumentURI(u)
+		journal, _ := parser.Parse(contents[uri])
+		if journal == nil {
+			continue
+		}
+		symbols = append(symbols, extractSymbols(journal, uri, query)...)
+	}
 
 	return symbols, nil
 }
